@@ -43,9 +43,10 @@ ATTRS = {
     "doc+test": (["/// documented", "#[test]"], True),
     "test+allow": (["#[test]", "#[allow(dead_code)]"], True),
     "allow+test": (["#[allow(dead_code)]", "#[test]"], True),
+    "test+comment": (["#[test]", "// why this case matters"], True),
 }
 EXT_ATTRS = {"tokio-test": (["#[tokio::test]"], None), "cfg-not-test": (["#[cfg(not(test))]"], None)}
-WRAPS = ["top", "impl", "mod", "cfgtest1", "cfgtest2", "mod-in-cfgtest"]
+WRAPS = ["top", "impl", "mod", "cfgtest1", "cfgtest2", "mod-in-cfgtest", "cfgtest-comment"]
 
 # planted statements: (name, lines, [(rule, line offset)] expected when everything is enabled)
 UNWRAP = [
@@ -64,6 +65,9 @@ CLONE = [
     ("arg", ["consume(y.clone());", "touch(&y);"], []),
     ("let-used", ["let a = y.clone();", "consume(a);", "touch(&y);"], []),
     ("let-unused", ["let a = y.clone();", "consume(a);"], [("clone-abuse.unnecessary-clone", 0)]),
+    ("let-used-in-format-capture", ["let a = y.clone();", "consume(a);", 'println!("kept {y} and {y:?}");'], []),
+    ("let-used-same-line", ["let a = y.clone(); consume(a); touch(&y);"], []),
+    ("let-unused-similar-name", ["let a = y.clone();", "consume(a);", 'println!("{year}", year = 1);'], [("clone-abuse.unnecessary-clone", 0)]),
     ("let-field", ["let a = self_like.field.clone();", "consume(a);"], []),
     ("for", ["for it in items.iter() {", "    consume(y.clone());", "}", "touch(&y);"], [("clone-abuse.clone-in-loop", 1)]),
     ("while", ["while more() {", "    consume(y.clone());", "}", "touch(&y);"], [("clone-abuse.clone-in-loop", 1)]),
@@ -90,6 +94,7 @@ BLOCK = [
     ("spawn-blocking-nested-closure", ["let sizes = tokio::task::spawn_blocking(move || {", "    paths.iter().map(|p| std::fs::read(p).map(|b| b.len())).collect::<Vec<_>>()", "}).await?;"], []),
     ("block-in-place-nested-closure", ["tokio::task::block_in_place(|| {", "    hosts.iter().for_each(|_| std::thread::sleep(delay));", "});"], []),
     ("closure-outside-wrapper", ["let sizes = paths.iter().map(|p| std::fs::read(p)).collect::<Vec<_>>();"], [("blocking-async.fs-in-async", 0)]),
+    ("fs-feeding-awaited-call", ["client.send(std::fs::read(path).unwrap()).await;"], [("blocking-async.fs-in-async", 0)]),
     ("fs-in-loop", ["for p in paths {", "    let s = std::fs::read(p)?;", "}"], [("blocking-async.fs-in-async", 1)]),
     ("plain", ["let n = compute(delay);"], []),
 ]
@@ -123,6 +128,8 @@ def _container(idx, asyncfn, attr_lines, wrap, body):
         return [f"mod plain{idx} {{"] + ind(fn) + ["}"], body_off + 1, False
     if wrap == "cfgtest1":
         return ["#[cfg(test)]", f"mod tests{idx} {{"] + ind(fn) + ["}"], body_off + 2, True
+    if wrap == "cfgtest-comment":
+        return ["#[cfg(test)]", "// unit tests live here", f"mod tests{idx} {{"] + ind(fn) + ["}"], body_off + 3, True
     if wrap == "cfgtest2":
         return ["#[cfg(test)]", f"mod tests{idx} {{", f"    mod inner{idx} {{"] + ind(fn, 2) + ["    }", "}"], body_off + 3, True
     if wrap == "mod-in-cfgtest":
@@ -253,7 +260,7 @@ def _build_and_run(acc: Acc, linter, specs, tag):
 
         for rule, line in missing:
             nm, an, wrap, asyncfn = describe(line)
-            in_test = bool(ATTRS.get(an, ([], False))[1]) or wrap in ("cfgtest1", "cfgtest2", "mod-in-cfgtest")
+            in_test = bool(ATTRS.get(an, ([], False))[1]) or wrap in ("cfgtest1", "cfgtest2", "mod-in-cfgtest", "cfgtest-comment")
             ctx = "?" if an == "?" else ("test-context" if in_test else "production-code")
             acc.fail({"linter": linter, "mode": "missing", "rule": rule, "stmt": nm, "context": ctx, "config": cfgname}, {**case, "line": line, "attrs": an, "wrap": wrap}, {"reported": (rule, line)}, "not reported", tag)
         src = text.split("\n")
@@ -280,7 +287,7 @@ def _stmt_at(text, line, specs, linter):
     nm = next((n for n in names if any(x.strip() == s_line for x in stmts[n][1])), names[0])
     # one root cause = one signature: the statement and the two facts the model depends on
     # (test context, async fn); the concrete attribute list / wrapper stay in the replay case
-    in_test = bool(ATTRS.get(an, ([], False))[1]) or wrap in ("cfgtest1", "cfgtest2", "mod-in-cfgtest")
+    in_test = bool(ATTRS.get(an, ([], False))[1]) or wrap in ("cfgtest1", "cfgtest2", "mod-in-cfgtest", "cfgtest-comment")
     return f"{nm}|{'test-context' if in_test else 'production-code'}|{'async' if asyncfn else 'sync'}"
 
 
